@@ -508,9 +508,12 @@ impl Drop for Ctx {
             // ... and a third one joins the threads this thread has started (a scope guard): a
             // destructor that may have to BLOCK while the panic unwinds. Only children that
             // terminate on their own (no blocking operation) are joined, so that the wait ends.
+            // While this thread waits, mid-unwind, every other thread can run "while panicking"
+            // (known finding K7: e.g. their guard drops poison mutexes). So the blocking destructor
+            // is only used in programs in which no OTHER thread takes a lock or blocks at all.
             let p = self.env.p.clone();
-            for t in 1..p.threads.len() {
-                let nonblocking = p.threads[t].iter().all(|o| {
+            let nonblocking_thread = |t: usize| {
+                p.threads[t].iter().all(|o| {
                     !matches!(
                         o.inner(),
                         Op::Lock { .. }
@@ -535,7 +538,11 @@ impl Drop for Ctx {
                             | Op::Spawn { .. }
                             | Op::Panic { .. }
                     )
-                });
+                })
+            };
+            let others_harmless = (0..p.threads.len()).all(|t| t == self.tid as usize || nonblocking_thread(t));
+            for t in 1..p.threads.len() {
+                let nonblocking = others_harmless;
                 let mine = p.threads[self.tid as usize].iter().any(|o| matches!(o.inner(), Op::Spawn { t: x } if *x as usize == t));
                 if nonblocking && mine && JOIN_ON_UNWIND.with(|c| c.get()) {
                     let h = self.env.join.borrow_mut()[t].take();
